@@ -283,7 +283,7 @@ class Prop:
     def _descs(self, tier, rng):
         yield from CORPUS
         nmax = 4 if tier == "quick" else 5
-        ks = [None, 1, 2, 3] if tier == "quick" else [None, 0, 1, 2, 3, 5]
+        ks = [None, 1, 2, 3] if tier == "quick" else [None, 0, 1, 2, 4]
         labelings = [
             lambda i, d, s, *_: (i % 4, None, None, None),                       # distinct strings a b ab A
             lambda i, d, s, *_: ((d + s) % 3, None, None, None),                 # clones in different parents
